@@ -223,7 +223,7 @@ def run(chk):
             resized[e.target] = e.value[0]
         for x in sized:
             v = resized.get(x["name"])
-            ok = v is not None and sp.sympify(v).free_symbols == {nsym} and sp.Poly(sp.sympify(v), nsym).degree() == 1 and all(c_ > 0 for c_ in sp.Poly(sp.sympify(v), nsym).all_coeffs()[:1])
+            ok = v is not None and (sym.is_zero(v) or (sp.sympify(v).free_symbols == {nsym} and sp.Poly(sp.sympify(v), nsym).degree() == 1 and all(c_ > 0 for c_ in sp.Poly(sp.sympify(v), nsym).all_coeffs()[:1])))   # emptied, or sized for the count
             chk.ob("C10-R3", "%s::Workspace::resize sizes %s from the segment count" % (cls, x["name"]), ok, loc(rz), "resize(%s)" % (v,), construct="%s/Workspace/%s" % (cls, x["name"]))
         # the key: the guard reads the size of a buffer that resize itself sets to exactly the requested count, and when
         # that size already matches nothing is resized (so 'key matches' implies 'every buffer is sized for this count')
